@@ -199,6 +199,15 @@ def c03(tier):
              build_spec('compressed', [0]),
              build_spec('types', [0]),
              build_spec('json', [0])]
+    LW = ('payload = a byte string whose LENGTH is a solver variable L and whose content is one abstract block (len() symbolic; the [r::4] slicing, '
+          'translate and slice assignment of mask_payload recorded per residue class): header announces exactly L in the shortest form, payload is the '
+          'caller block XOR key lane-wise (symbolic byte x: all 256 values), for EVERY L at once; ')
+    for via, maxlen, what in [
+            ('frame_build', (1 << 63) - 1, 'Frame.build directly, symbolic FIN/RSV1, 6 opcodes, 0 <= L < 2^63'),
+            ('send_binary', 1 << 17, 'send_binary -> session.send -> Frame.to_bytes -> build, 0 <= L <= 2^17 (every length across the 125/126 and 65535/65536 boundaries)'),
+            ('send_ping', 1 << 17, 'send_ping: accepted iff L <= 125'), ('send_pong', 1 << 17, 'send_pong: accepted iff L <= 125'),
+            ('close', 1 << 17, 'close(symbolic 16-bit code, reason of L bytes): accepted iff L <= 123; payload = code ++ reason')]:
+        specs.append(Spec('anylen-' + via, 'checks.buildlen', 'run_buildlen', dict(via=via, maxlen=maxlen, xval_stride=1), what=LW + what))
 
     def pre():
         from symlomond import symdata as sd
@@ -213,7 +222,10 @@ def c03(tier):
     lomond()
     return run_property('C03', tier, specs, 'model_checking', 'client frames valid & round-trip',
                         ENV_ASSUMPTIONS + ['content is symbolic at the first/last 8 bytes of long payloads, a fixed pattern in between '
-                                           '(the 4-lane XOR structure is periodic); lengths other than the listed ones are outside the claim',
+                                           '(the 4-lane XOR structure is periodic); content-level checks cover the listed lengths only',
+                                           'anylen-* explorations: the payload length is a solver variable (every length at once) and the content one abstract '
+                                           'block; they assume that bytearray slicing/translate/bytes() treat a buffer of any length uniformly (CPython, not '
+                                           'encoded); replay above 2^17 bytes (Frame.build only) uses a bytearray whose __len__ reports L over a short content',
                                            'json.dumps is not encoded (C function): send_json is checked to route concrete objects through one text frame',
                                            'compression: one exploration with permessage-deflate negotiated (abstract zlib of C06): RSV1 iff requested; histories are C06'],
                         BUILD_FUNCS, pre=pre)
@@ -294,6 +306,11 @@ def c07(tier):
                   connect=dict(poll=1.0, close_timeout=3.0),
                   app=dict(actions=['close', 'close_default'], max_actions=1, only_events=['connected', 'ready', 'text']),
                   fault=dict(ops=['sendall'], kinds=['oserror', 'exception'], max=1, skip={'sendall': 1}), max_waits=30),
+        life_spec('pong-then-silence', tags,
+                  'ping_timeout armed: the server upgrades, sends up to 2 frames from {Pong, Text} and then stays silent (no EOF): the ping '
+                  'timeout must end the iteration (virtual clock starting at an epoch-sized value)',
+                  server=dict(kind='grammar', K=2, alphabet=['pong', 'text']), end='silence', silent_waits=10 ** 6,
+                  connect=dict(poll=1.0, ping_rate=1.0, ping_timeout=3.0), max_waits=30),
         life_spec('grammar-K%d-cut' % (2 if q else 3), tags,
                   'server grammar frames, transport cut after a symbolic number of bytes of the whole stream (incl. inside the handshake)',
                   server=dict(kind='grammar', K=2 if q else 3, alphabet=['text', 'ping', 'close', 'frag']), cut_anywhere=True, end='sym',
@@ -334,6 +351,14 @@ def c09(tier):
                   fault=dict(ops=['sendall', 'recv', 'wait', 'shutdown', 'close'], kinds=['oserror', 'exception'], max=1, skip={'sendall': 1}),
                   app=dict(actions=['close', 'send_ping'], max_actions=1)),
     ]
+    specs.append(life_spec('close-write-fault-then-silence', tags,
+                           'the write of a Close frame (application close() at a solver-chosen event, or the echo of a server Close) fails with a '
+                           'one-shot socket error / exception and the peer then stays silent (no EOF): the iterator must not wait forever - '
+                           'close_timeout ends it (virtual clock)',
+                           server=dict(kind='grammar', K=1, alphabet=['text', 'close']), end='silence', silent_waits=10 ** 6,
+                           connect=dict(poll=1.0, close_timeout=3.0),
+                           app=dict(actions=['close', 'close_default'], max_actions=1, only_events=['connected', 'ready', 'text']),
+                           fault=dict(ops=['sendall'], kinds=['oserror', 'exception'], max=1, skip={'sendall': 1}), max_waits=30))
     if not q:
         specs.append(life_spec('double-fault', tags, 'all ordered pairs of faults',
                                server=dict(kind='fixed', hex='810161' + '890170' + '8800'),
@@ -386,6 +411,14 @@ def c10(tier):
           'case chosen by solver variables; Upgrade and Accept values are symbolic holes', sym_status=False),
         S('reply-symkey', 'run_reply', 'symbolic key: sha1 is an uninterpreted 20-byte vector D(key); status and holes symbolic',
           sym_key=True, templates=['plain', 'folded-accept'], sym_case=False),
+        S('reply-values', 'run_reply', 'correct reply; the Sec-WebSocket-Extensions / -Protocol VALUES in 9 x 3 spellings (parameters, optional '
+          'whitespace around ";" "=" and the whole value, tab, quoted parameter value): Ready must report protocol chat and permessage-deflate and '
+          'enable compression', sym_status=False, sym_case=False, templates=['plain', 'reordered'],
+          ext_values=['permessage-deflate', 'permessage-deflate; server_max_window_bits=12', 'permessage-deflate ; server_max_window_bits=12',
+                      'permessage-deflate\t;\tclient_max_window_bits = 10', 'permessage-deflate;server_no_context_takeover',
+                      '  permessage-deflate  ', 'permessage-deflate; client_no_context_takeover ; server_max_window_bits="10"',
+                      'permessage-deflate ;server_no_context_takeover', 'permessage-deflate\t; client_no_context_takeover'],
+          proto_values=['chat', '  chat', 'chat\t ']),
         S('fresh-key', 'run_fresh_key', 'one WebSocket object connect()ed 3 times; os.urandom(16) symbolic per call; the key of request i must decode to the draw made for attempt i; a reply recorded from attempt 1 is optionally replayed later', xval_stride=2),
         S('oversize', 'run_oversize', 'header block of 16384-3..16384+3 bytes, terminated or not, one read or cut at a symbolic position around the bound'),
     ]
@@ -411,6 +444,9 @@ def c19(tier):
         S('segmented', 'answers cut at a symbolic position (two recv(1024) reads), status 200', cuts='symcut', sym_status=False,
           configs=[0, 2, 3], tails=['ok', 'ok-headers', 'unterminated-eof']),
         S('bytewise', 'answer delivered one byte per recv', cuts='bytewise', configs=[0, 3], tails=['ok', 'ok-headers', 'unterminated-eof']),
+        S('after-earlier-attempt', 'the checked attempt is preceded, in the same process, by an EARLIER attempt through the same proxy whose outcome '
+          'is a solver variable {tunnel+session, answer cut by a socket error, answer cut by EOF, 407}: symbolic status, tails '
+          '{terminated, unterminated+EOF}', prelude=True, configs=[0, 3, 11], tails=['ok', 'unterminated-eof']),
         S('faults', 'one symbolic fault (socket error / arbitrary exception) at any proxy-socket call', sym_status=False,
           configs=[0, 3, 4], tails=['ok', 'unterminated-eof'],
           fault=dict(ops=['getaddrinfo', 'socket', 'connect', 'sendall', 'recv', 'wrap_socket'], kinds=['oserror', 'exception'], max=1)),
@@ -478,6 +514,9 @@ def c15(tier):
     specs.append(S('close-timeout', W + 'close_timeout symbolic, application close() at a solver-chosen event, server actions {silent, Text, Close}: forced '
                    'non-graceful Disconnected in [c, c+p] after the Close was sent, never after the handshake completed',
                    K=K + 1, ping_rate=0, ping_timeout='none', actions=['silent', 'text', 'close']))
+    specs.append(S('close-repeated', W + 'close_timeout symbolic, the application calls close() at up to TWO solver-chosen events (a repeated close() '
+                   'must not restart the close timeout), server actions {silent, Text}', K=K + 1, ping_rate=0, ping_timeout='none',
+                   actions=['silent', 'text'], app_closes=2))
     specs.append(S('all-timers', W + 'all three timers symbolic, ping_rate=7, actions {silent, Pong, Text, Close}, application close()', K=K, ping_rate=7))
     specs.append(S('no-timeouts', 'ping_timeout=None and close_timeout=None: nothing may ever be forced', K=K, ping_rate=1,
                    ping_timeout='none', close_timeout='none', actions=['silent', 'close']))
